@@ -38,23 +38,30 @@ type tailRun struct {
 func (r *runner) tailQueries(tier string) []string {
 	var qs []string
 	all := append(append([]string{}, hostileLogQL...), corpusLogQL...)
-	for _, q := range all {
+	for i, q := range all {
+		if !r.mine(i) {
+			continue
+		}
 		p, err := planLog(q)
 		if err != nil || p.Chain[0].IsMatrix() {
 			continue // Tail on a metric query divides by the zero Step in a goroutine of its own: not this property
 		}
 		qs = append(qs, q)
 	}
-	max := 48
+	max := 48 / r.shards
+	if r.shards <= 1 {
+		max = 48
+	}
 	if tier == "thorough" {
 		max = len(qs)
 	}
 	if len(qs) > max {
 		// the hostile ones first, then a seeded sample of the rest
-		head := qs[:24]
-		rest := qs[24:]
+		h := max / 2
+		head := qs[:h]
+		rest := qs[h:]
 		r.rng.Shuffle(len(rest), func(i, j int) { rest[i], rest[j] = rest[j], rest[i] })
-		qs = append(head, rest[:max-24]...)
+		qs = append(head, rest[:max-h]...)
 	}
 	return qs
 }
